@@ -12,6 +12,19 @@ C = 'histories: BFS over operation sequences against a model of the global gener
 
 # id -> (engine, technique, level text, level note, design ref)
 CHECKS = {
+    'C01': ('rngmc', 'explicit-state exploration of ALL random-generator answer sequences on the real rewiring code (state-hash pruning), oracle on every execution + state invariants',
+            'For ~4900 (quick) configurations routine x input graph x budget, every sequence of generator answers is executed on the real function '
+            'through a scripted RandomState (seed= seam); retry loops are merged by a live-variable state key. Every completed execution is judged '
+            '(in/out degrees, weight multiset, diagonal, symmetry, out-strength, zero-rewiring identity, latticisation re-indexing) and every newly '
+            'reached state checks that the edge-slot arrays name exactly the present connections and degrees are unchanged. Exhaustive for those '
+            'inputs and budgets (<=2-3 consecutive iterations, n<=6).',
+            'trusted: CPython 3.12 frame/bytecode introspection for state keys (validated against stateless enumeration in selftest/); continuous draws represented by threshold-separating points', 'DESIGN.md sections 1, 4 C01'),
+    'C11': ('rngmc', 'explicit-state exploration of ALL generator answers on bridge-rich inputs + bounded-exhaustive rejection inputs',
+            'Every answer sequence of randmio_und_connected / randmio_dir_connected / the four latticisers / randomize_graph_partial_und on a '
+            'catalogue of connected graphs where most swaps would disconnect (trees+chords, rings, bridges, strongly connected rings with chords): '
+            'output (and the working matrix at every state) stays (strongly) connected, lattice cost never increases for default and symmetric '
+            'caller D, no connection created in a masked cell; every disconnected graph n<=5 and asymmetric 3-node matrix is rejected.',
+            'trusted: BFS / Warshall closure in bctmc/smallscope.py; state keys as C01; symmetric D and masks only', 'DESIGN.md section 4 C11'),
     'C08': ('smallscope', 'bounded-exhaustive enumeration of small (di)graphs vs enumeration of all minimum-length simple paths',
             'All binary digraphs n<=4 / graphs n<=5 and lengths {1,2},{1,2,3} on 3-4 nodes (thorough: lengths {1,2} on all 4-node digraphs, '
             '5-node graphs, binary n=6): betweenness_bin/_wei, edge_betweenness_bin/_wei node and edge values equal the sum over ordered pairs of '
